@@ -203,3 +203,7 @@ def _register():
 
 
 _register()
+
+
+from . import condctor as _cc  # noqa: E402
+REG.include(_cc.REG, prefix="ctor")
